@@ -214,6 +214,15 @@ func checkC06(e *Env) {
 						send(c06exp{n: n, need: need, lang: lang, data: data, steps: stepsOf(sizes), k: -1, frag: fname})
 						// exactly as much data as needed: EOF would follow
 						send(c06exp{n: n, need: need, lang: lang, data: data[:need], steps: stepsOf(sizes), k: -1, frag: fname + "/exact-data"})
+						if rep < 2 && len(sizes) > 1 {
+							// a slow source: a garbage collection with finalizers completes before
+							// every fragment after the first
+							st := stepsOf(sizes)
+							for i := 1; i < len(st); i++ {
+								st[i].GC = true
+							}
+							send(c06exp{n: n, need: need, lang: lang, data: data, steps: st, k: -1, frag: fname + "/collection-between-fragments"})
+						}
 						if rep < 4 {
 							// error alongside the read that completes the delivery (lenient corner)
 							for _, kind := range failureKinds {
@@ -417,7 +426,7 @@ func checkC06(e *Env) {
 		"distinct_nontrivial":    dist.Len(),
 		"calls_inside_histories": histCalls,
 		"calls_on_a_source_that_fails_transiently_and_stays_installed": transientCalls,
-		"rule":                          "a case is a scripted randomness source (bytes, per-read delivery sizes, failure point, failure kind, error alone or alongside the last bytes) x word count x language; enumerated: every failure point k in 0..4n/3-1 for n in {12,15,18,21,24} x 13 failure kinds (io.EOF, io.ErrUnexpectedEOF, a custom error, EINTR, EAGAIN, *os.PathError, Temporary()/Timeout() errors, os.ErrDeadlineExceeded, io.ErrNoProgress, io.ErrShortBuffer, io.ErrClosedPipe, wrapped EOF; sticky: the source keeps failing) x {alone, alongside} plus plain end of data, each under several fragmentations (one read, 1-byte reads, halves, (k-1)+1, 1+(k-1), zero-length reads interleaved, seeded random compositions); successes under the same fragmentations incl. zero-leading data; all cases non-trivial (the result is compared with the reference encoding of the delivered prefix, or must be (\"\", non-nil error)); distinct by (data, script, n, language)",
+		"rule":                          "a case is a scripted randomness source (bytes, per-read delivery sizes, failure point, failure kind, error alone or alongside the last bytes) x word count x language; enumerated: every failure point k in 0..4n/3-1 for n in {12,15,18,21,24} x 13 failure kinds (io.EOF, io.ErrUnexpectedEOF, a custom error, EINTR, EAGAIN, *os.PathError, Temporary()/Timeout() errors, os.ErrDeadlineExceeded, io.ErrNoProgress, io.ErrShortBuffer, io.ErrClosedPipe, wrapped EOF; sticky: the source keeps failing) x {alone, alongside} plus plain end of data, each under several fragmentations (one read, 1-byte reads, halves, (k-1)+1, 1+(k-1), zero-length reads interleaved, seeded random compositions); successes under the same fragmentations incl. zero-leading data, and with a garbage collection (finalizers included) completing between the fragments; all cases non-trivial (the result is compared with the reference encoding of the delivered prefix, or must be (\"\", non-nil error)); distinct by (data, script, n, language)",
 		"samples":                       smp.List(),
 		"failure_matrix_cells_covered":  matrix.Len(),
 		"failure_matrix_cells_possible": wantMatrix,
